@@ -215,6 +215,24 @@ func huffmanThenGarbage(s string) []byte {
 	return append([]byte{0x00, 0x80 | byte(len(h))}, h...)
 }
 
+// boundaryVarints: 7-bit-prefix HPACK integers around the sizes an index or a length is held in (first byte = the
+// saturated prefix, as in the list above): 2^31-1, 2^31, 2^32, 2^62, 2^63-1, 2^63, 2^63+1, 2^63+64, 2^63+126, 2^64-1.
+var boundaryVarints = func() [][]byte {
+	var out [][]byte
+	for _, n := range []uint64{1<<31 - 1, 1 << 31, 1 << 32, 1 << 62, 1<<63 - 1, 1 << 63, 1<<63 + 1, 1<<63 + 64, 1<<63 + 126, 1<<64 - 1} {
+		v := []byte{0xff}
+		for r := n - 127; ; r >>= 7 {
+			if r < 128 {
+				v = append(v, byte(r))
+				break
+			}
+			v = append(v, byte(r&0x7f)|0x80)
+		}
+		out = append(out, v)
+	}
+	return out
+}()
+
 func mutateHpack(rt *rapid.T, b []byte) ([]byte, string) {
 	b = append([]byte(nil), b...)
 	class := rapid.SampledFrom([]string{"valid", "truncate", "bit-flip", "bit-flip", "huge-varint", "hostile-prefix", "hostile-suffix", "random"}).Draw(rt, "hpackMutation")
@@ -231,7 +249,7 @@ func mutateHpack(rt *rapid.T, b []byte) ([]byte, string) {
 		// replace one byte by a saturated prefix followed by a long varint continuation
 		if len(b) > 0 {
 			i := rapid.IntRange(0, len(b)-1).Draw(rt, "at")
-			v := rapid.SampledFrom([][]byte{{0xff, 0xff, 0xff, 0xff, 0x07}, {0xff, 0xff, 0xff, 0xff, 0xff, 0xff, 0xff, 0xff, 0xff, 0x01}, {0xff, 0x80, 0x80, 0x80, 0x80, 0x80, 0x80, 0x80, 0x80, 0x80, 0x80, 0x01}, {0xff, 0xe0, 0xff, 0x03}}).Draw(rt, "varint")
+			v := rapid.SampledFrom(append([][]byte{{0xff, 0xff, 0xff, 0xff, 0x07}, {0xff, 0xff, 0xff, 0xff, 0xff, 0xff, 0xff, 0xff, 0xff, 0x01}, {0xff, 0x80, 0x80, 0x80, 0x80, 0x80, 0x80, 0x80, 0x80, 0x80, 0x80, 0x01}, {0xff, 0xe0, 0xff, 0x03}}, boundaryVarints...)).Draw(rt, "varint")
 			b[i] |= 0x7f
 			b = append(b[:i+1:i+1], append(append([]byte(nil), v[1:]...), b[i+1:]...)...)
 		}
